@@ -183,16 +183,23 @@ void DNS::add_query(const query& query) {
     stream.write_be<uint16_t>(query.query_class());
 
     uint32_t offset = static_cast<uint32_t>(new_str.size()), threshold = answers_idx_;
-    // Make sure every record that's going to be moved is well formed before 
-    // modifying anything, so a malformed one doesn't leave the sections half updated
-    uint32_t answers_start = answers_idx_, authority_start = authority_idx_, 
-             additional_start = additional_idx_;
-    update_records(answers_start, answers_count(), threshold, 0);
-    update_records(authority_start, authority_count(), threshold, 0);
-    update_records(additional_start, additional_count(), threshold, 0);
-    update_records(answers_idx_, answers_count(), threshold, offset);
-    update_records(authority_idx_, authority_count(), threshold, offset);
-    update_records(additional_idx_, additional_count(), threshold, offset);
+    // A malformed record must not leave the sections half updated, so keep 
+    // what we need to undo everything
+    const byte_array saved_records = records_data_;
+    const uint32_t saved_answers = answers_idx_, saved_authority = authority_idx_, 
+                   saved_additional = additional_idx_;
+    try {
+        update_records(answers_idx_, answers_count(), threshold, offset);
+        update_records(authority_idx_, authority_count(), threshold, offset);
+        update_records(additional_idx_, additional_count(), threshold, offset);
+    }
+    catch (...) {
+        records_data_ = saved_records;
+        answers_idx_ = saved_answers;
+        authority_idx_ = saved_authority;
+        additional_idx_ = saved_additional;
+        throw;
+    }
     records_data_.insert(
         records_data_.begin() + threshold,
         new_str.begin(),
@@ -238,24 +245,29 @@ void DNS::add_record(const resource& resource, const sections_type& sections) {
     if (resource.query_type() == MX) {
         offset += sizeof(uint16_t);
     }
-    // Make sure every record that's going to be moved is well formed before 
-    // modifying anything, so a malformed one doesn't leave the sections half updated
+    // A malformed record must not leave the sections half updated, so keep 
+    // what we need to undo everything
+    const byte_array saved_records = records_data_;
+    std::vector<uint32_t> saved_starts;
     for (size_t i = 0; i < sections.size(); ++i) {
-        uint32_t section_start = *sections[i].first;
-        update_records(
-            section_start, 
-            sections[i].second, 
-            static_cast<uint32_t>(threshold),
-            0
-        );
+        saved_starts.push_back(*sections[i].first);
     }
-    for (size_t i = 0; i < sections.size(); ++i) {
-        update_records(
-            *sections[i].first, 
-            sections[i].second, 
-            static_cast<uint32_t>(threshold),
-            static_cast<uint32_t>(offset)
-        );
+    try {
+        for (size_t i = 0; i < sections.size(); ++i) {
+            update_records(
+                *sections[i].first, 
+                sections[i].second, 
+                static_cast<uint32_t>(threshold),
+                static_cast<uint32_t>(offset)
+            );
+        }
+    }
+    catch (...) {
+        records_data_ = saved_records;
+        for (size_t i = 0; i < sections.size(); ++i) {
+            *sections[i].first = saved_starts[i];
+        }
+        throw;
     }
     
     records_data_.insert(
